@@ -48,7 +48,7 @@ struct Ghost {
   unsigned char dec;                      /* decision taken at the linearisation point of SlowUnlock */
   uint32_t w_at_unlock;
 } g;
-struct Mine { unsigned char hr, fl, ul, hw, mid, smid, lock, parked_first, parked_queue, queued_reader; uint32_t rmid; Node* node; } me;
+struct Mine { unsigned char hr, fl, ul, hw, mid, smid, lock, parked_first, parked_queue, queued_reader, enqueued; uint32_t rmid; Node* node; unsigned long idx; } me;
 enum { DEC_NONE = 0, DEC_WRITER, DEC_READERS, DEC_READERS_W, DEC_PASS };
 unsigned g_runs; Node* g_must_run; unsigned char g_run_kind;    /* obligations to hand a granted node to its executor */
 #define BND (1u << 30)
@@ -56,26 +56,36 @@ unsigned g_runs; Node* g_must_run; unsigned char g_run_kind;    /* obligations t
 #define R ((uint32_t)M._state)
 #define RW (M._readers_wait)
 #define D (g.hr + g.ul + g.pass)
-#define INV_A ( g.hw <= 1 && g.wf <= 1 && g.mid <= 1 && g.smid <= 1 && g.fpend <= 1 && g.mid <= g.wf && g.hw + g.wf + g.smid <= 1 \
-  && g.hr < BND && g.fl < BND && g.ul < BND && g.wq < BND && g.rs < BND && g.pass < BND && g.prio < BND \
-  && W == g.hw + g.wf + g.wq && R == g.hr + g.fl + g.rs && M._state < ((uint64_t)BND << 33) \
-  /* C15 exclusion: one writer at most, and no reader while it holds */ \
-  && (g.hw ==> (g.hr == 0 && g.ul == 0 && g.pass == 0 && RW == 0)) \
-  /* nobody is forgotten: parked writers and readers are always behind a holder, a first writer or an unlock in progress */ \
-  && (g.wq > 0 ==> g.hw + g.wf + g.smid == 1) && (g.rs > 0 ==> g.hw + g.wf + g.smid == 1) \
-  && (g.smid ==> (g.hr == 0 && g.ul == 0 && g.pass == 0 && RW == 0 && g.rs > 0 && g.wq > 0)) \
-  /* ... and the first writer waits for exactly the readers that still have to release (debt == holders + pending payments + credits) */ \
-  && ((g.wf && !g.mid) ==> (RW == D && D >= 1)) \
-  && (g.mid ==> (g.rmid >= 1 && g.rmid < BND && D <= g.rmid && (uint32_t)(RW + g.rmid) == D)) \
-  && (W == 0 ==> (g.ul == 0 && RW == 0 && g.rs == 0 && g.pass == g.fl)) \
-  && g.pass <= g.fl && (g.ul > 0 ==> g.wf) && g.latent <= g.hr \
-  && (g.fpend ==> (g.wf && !g.mid && g.hr == g.latent && g.ul == 0 && g.pass == 0)) \
-  && ((g.wf && !g.mid && !g.fpend) ==> (M._writers_first == g.first_node && g.first_node != 0)) \
-  && (FIFO ? (g.prio <= g.wq && (g.rs == 0 ==> g.prio == g.wq)) : g.prio == 0) )
+#define I_RANGE ( g.hw <= 1 && g.wf <= 1 && g.mid <= 1 && g.smid <= 1 && g.fpend <= 1 && g.mid <= g.wf && g.hw + g.wf + g.smid <= 1 \
+  && g.hr < BND && g.fl < BND && g.ul < BND && g.wq < BND && g.rs < BND && g.pass < BND && g.prio < BND && g.latent < BND && R < BND && W < BND )
+#define I_WORD ( W == g.hw + g.wf + g.wq && R == g.hr + g.fl + g.rs )
+/* C15 exclusion: one writer at most, and no reader while it holds */
+#define I_EXCL ( g.hw ==> (g.hr == 0 && g.ul == 0 && g.pass == 0 && RW == 0) )
+/* nobody is forgotten: parked writers and readers are always behind a holder, a first writer or an unlock in progress */
+#define I_PARKED ( (g.wq > 0 ==> g.hw + g.wf + g.smid == 1) && (g.rs > 0 ==> g.hw + g.wf + g.smid == 1) )
+#define I_SMID ( g.smid ==> (g.hr == 0 && g.ul == 0 && g.pass == 0 && RW == 0 && g.rs > 0 && g.wq > 0) )
+/* ... and the first writer waits for exactly the readers that still have to release (debt == holders + pending payments + credits) */
+#define I_DEBT ( ((g.wf && !g.mid) ==> (RW == D && D >= 1 && D < BND)) && (g.mid ==> (g.rmid >= 1 && g.rmid < BND && D <= g.rmid && (uint32_t)(RW + g.rmid) == D)) )
+#define I_FREE ( W == 0 ==> (g.ul == 0 && RW == 0 && g.rs == 0 && g.pass == g.fl) )
+#define I_MISC ( g.pass <= g.fl && (g.ul > 0 ==> g.wf) && g.latent <= g.hr )
+#define I_FIRST ( (g.fpend ==> (g.wf && !g.mid && g.hr == g.latent && g.ul == 0 && g.pass == 0)) && ((g.wf && !g.mid && !g.fpend) ==> (M._writers_first == g.first_node && g.first_node != 0)) )
+#define I_PRIO ( FIFO ? (g.prio <= g.wq && (g.rs == 0 ==> g.prio == g.wq)) : g.prio == 0 )
+#define INV_A ( I_RANGE && I_WORD && I_EXCL && I_PARKED && I_SMID && I_DEBT && I_FREE && I_MISC && I_FIRST && I_PRIO )
+#define INV_ASSERT(where) do { \
+  __CPROVER_assert(I_RANGE, "C15: invariant (counters in range, at most one of writer holding / first writer / unlock in progress) " where); \
+  __CPROVER_assert(I_WORD, "C15: invariant (the packed word counts exactly the registered writers and readers) " where); \
+  __CPROVER_assert(I_EXCL, "C15: invariant (exclusion: no reader holds, is paying or has a credit while a writer holds) " where); \
+  __CPROVER_assert(I_PARKED, "C15: invariant (nobody forgotten: parked writers / readers are behind a holder, a first writer or an unlock in progress) " where); \
+  __CPROVER_assert(I_SMID, "C15: invariant (unlock in progress) " where); \
+  __CPROVER_assert(I_DEBT, "C15: invariant (the first writer's debt equals the readers still to release) " where); \
+  __CPROVER_assert(I_FREE, "C15: invariant (no writer registered: no debt, no queued reader, one credit per registered reader) " where); \
+  __CPROVER_assert(I_MISC, "C15: invariant (credits <= registered readers, payments pending only in front of a first writer) " where); \
+  __CPROVER_assert(I_FIRST, "C15: invariant (_writers_first names the parked first writer) " where); \
+  __CPROVER_assert(I_PRIO, "C15: invariant (FIFO priority bookkeeping) " where); } while (0)
 /* coupling of the lock-protected fields with their logical values: holds whenever the spinlock is free */
 unsigned long WP_MAX; Node* wp;
 #define WHEAD (&M._writers_head)
-#define INV_L ( M._readers_size == g.rs && M._readers_pass == g.pass && M._writers_prio == g.prio && g.rl == g.rs && g.local == 0 \
+#define INV_L ( M._readers_size == g.rs && M._readers_pass == g.pass && M._writers_prio == g.prio && g.rl == g.rs \
   && g.qh <= g.qt && g.qt < WP_MAX && g.qt - g.qh == g.wq && M._writers_tail == (g.qh < g.qt ? &wp[g.qt - 1] : WHEAD) && !g.smid && !g.mid && !g.fpend && g.dec == DEC_NONE )
 #define POOL_INIT() do { WP_MAX = nondet_ulong(); __CPROVER_assume(WP_MAX >= 2 && WP_MAX <= (1UL << 36)); wp = malloc(sizeof(Node) * WP_MAX); __CPROVER_assume(wp != 0); } while (0)
 /* the `next` links of queued writers are defined by the pool order (DESIGN 5.F); writes must agree with it */
@@ -83,20 +93,20 @@ static Node* node_next(Node* x) {
   if (x == WHEAD) return g.qh < g.qt ? &wp[g.qh] : (Node*)0;
   __CPROVER_assert(__CPROVER_same_object(x, wp), "SHAPE: next read of a node outside the writers queue");
   unsigned long k = (unsigned long)(x - wp);
-  __CPROVER_assert(k >= g.qh && k < g.qt || (me.node == x), "SHAPE: next read of a node that is not queued");
+  __CPROVER_assert(k >= g.qh && k < g.qt, "SHAPE: next read of a node that is not queued");
   return (k + 1 < g.qt && k >= g.qh) ? &wp[k + 1] : (Node*)0;
 }
 static void node_set_next(Node* x, Node* v) {
   if (x == WHEAD) {
-    if (g.qh == g.qt) { __CPROVER_assert(v == &wp[g.qt] && v == me.node, "writers queue: only the arriving node is linked behind the head"); g.qt++; }
+    if (g.qh == g.qt) { __CPROVER_assert(v == &wp[g.qt] && v == me.node && !me.enqueued, "writers queue: only the arriving node is linked behind the head"); g.qt++; me.enqueued = 1; }
     else { __CPROVER_assert(v == (g.qh + 1 < g.qt ? &wp[g.qh + 1] : (Node*)0), "writers queue: the head is advanced to the successor of the first node"); g.qh++; }
     return;
   }
   __CPROVER_assert(__CPROVER_same_object(x, wp), "SHAPE: next write of a node outside the writers queue");
   unsigned long k = (unsigned long)(x - wp);
-  if (k == g.qt && x == me.node) { __CPROVER_assert(v == 0, "writers queue: a node is linked only behind the tail"); return; }
-  __CPROVER_assert(g.qh < g.qt && k == g.qt - 1 && v == &wp[g.qt] && v == me.node, "writers queue: the arriving node is linked behind the tail");
-  g.qt++;
+  if (x == me.node && !me.enqueued) { __CPROVER_assert(v == 0, "writers queue: the arriving node's own link is only cleared before it is queued"); return; }
+  __CPROVER_assert(g.qh < g.qt && k == g.qt - 1 && v == &wp[g.qt] && v == me.node && !me.enqueued, "writers queue: the arriving node is linked behind the tail");
+  g.qt++; me.enqueued = 1;
 }
 #define NODE_NEXT(x) node_next(x)
 #define NODE_SET_NEXT(x, v) node_set_next(x, v)
@@ -130,13 +140,15 @@ static void LOCK(void) {
   __CPROVER_assert(!me.lock, "spinlock: no recursive locking");
   env();
   __CPROVER_assume(INV_L);
+  /* naming convention of the ghost pool: an arriving writer is named by the slot it will occupy (me.idx is arbitrary, so every arrival position is covered) */
+  if (me.node != 0) __CPROVER_assume(g.qt == me.idx);
   me.lock = 1;
 }
 static void commit(void);
 static void UNLOCK(void) {
   __CPROVER_assert(me.lock, "spinlock: unlock only what is held");
   commit();
-  __CPROVER_assert(INV_A, "C15: invariant holds when the spinlock is released");
+  INV_ASSERT("when the spinlock is released");
   __CPROVER_assert(INV_L, "C15: lock-protected fields agree with their logical values when the spinlock is released");
   me.lock = 0;
 }
@@ -145,6 +157,7 @@ static void UNLOCK(void) {
 
 /* ---- transitions (the guarantees) ------------------------------------------------------------------------------------------------ */
 static void tr_reader_arrive(uint64_t old) {           /* fetch_add(kReader) / successful CAS +kReader */
+  __CPROVER_assume((uint32_t)old < BND - 1);          /* listed assumption: fewer than 2^30 readers registered at once */
   if ((uint32_t)(old >> 32) == 0) { g.hr++; me.hr = 1; } else { g.fl++; me.fl = 1; }
 }
 static void tr_writer_try(uint64_t old) {              /* CAS 0 -> kWriter */
@@ -152,6 +165,7 @@ static void tr_writer_try(uint64_t old) {              /* CAS 0 -> kWriter */
 }
 static void tr_writer_arrive(uint64_t old) {           /* A1: fetch_add(kWriter) under the spinlock */
   __CPROVER_assert(me.lock, "C15: writers register under the spinlock");
+  __CPROVER_assume((uint32_t)(old >> 32) < BND - 1);  /* listed assumption: fewer than 2^30 writers registered at once */
   if ((uint32_t)(old >> 32) == 0) {
     uint32_t r = (uint32_t)old;
     g.first_node = me.node;
@@ -202,21 +216,21 @@ static void tr_writer_release_store(uint32_t v) {      /* S2: readers_wait.store
 static void on_state_write(uint64_t o, uint64_t n, int mo, int kind);
 static void on_rw_write(uint32_t o, uint32_t n, int mo, int kind);
 static uint64_t A_load(uint64_t* p, int mo) { env(); return M._state; }
-static uint64_t A_fetch_add(uint64_t* p, uint64_t d, int mo) { env(); uint64_t o = M._state; M._state = o + d; on_state_write(o, o + d, mo, RG_ADD); __CPROVER_assert(INV_A, "C15: invariant after fetch_add(state)"); return o; }
-static uint64_t A_fetch_sub(uint64_t* p, uint64_t d, int mo) { env(); uint64_t o = M._state; M._state = o - d; on_state_write(o, o - d, mo, RG_SUB); __CPROVER_assert(INV_A, "C15: invariant after fetch_sub(state)"); return o; }
+static uint64_t A_fetch_add(uint64_t* p, uint64_t d, int mo) { env(); uint64_t o = M._state; M._state = o + d; on_state_write(o, o + d, mo, RG_ADD); INV_ASSERT("after fetch_add(state)"); return o; }
+static uint64_t A_fetch_sub(uint64_t* p, uint64_t d, int mo) { env(); uint64_t o = M._state; M._state = o - d; on_state_write(o, o - d, mo, RG_SUB); INV_ASSERT("after fetch_sub(state)"); return o; }
 static int A_cas_strong(uint64_t* p, uint64_t* e, uint64_t d, int ms, int mf) {
   env(); uint64_t o = M._state;
-  if (o == *e) { M._state = d; on_state_write(o, d, ms, RG_CAS); __CPROVER_assert(INV_A, "C15: invariant after CAS(state)"); return 1; }
+  if (o == *e) { M._state = d; on_state_write(o, d, ms, RG_CAS); INV_ASSERT("after CAS(state)"); return 1; }
   *e = o; return 0;
 }
 static int A_cas_weak(uint64_t* p, uint64_t* e, uint64_t d, int ms, int mf) {
   env(); uint64_t o = M._state;
-  if (o == *e && !nondet_bool()) { M._state = d; on_state_write(o, d, ms, RG_CAS); __CPROVER_assert(INV_A, "C15: invariant after CAS(state)"); return 1; }
+  if (o == *e && !nondet_bool()) { M._state = d; on_state_write(o, d, ms, RG_CAS); INV_ASSERT("after CAS(state)"); return 1; }
   *e = o; return 0;
 }
-static uint32_t A32_fetch_add(uint32_t* p, uint32_t d, int mo) { env(); uint32_t o = M._readers_wait; M._readers_wait = o + d; on_rw_write(o, o + d, mo, RG_ADD); __CPROVER_assert(INV_A, "C15: invariant after fetch_add(readers_wait)"); return o; }
-static uint32_t A32_fetch_sub(uint32_t* p, uint32_t d, int mo) { env(); uint32_t o = M._readers_wait; M._readers_wait = o - d; on_rw_write(o, o - d, mo, RG_SUB); __CPROVER_assert(INV_A, "C15: invariant after fetch_sub(readers_wait)"); return o; }
-static void A32_store(uint32_t* p, uint32_t d, int mo) { env(); uint32_t o = M._readers_wait; M._readers_wait = d; on_rw_write(o, d, mo, RG_STORE); __CPROVER_assert(INV_A, "C15: invariant after store(readers_wait)"); }
+static uint32_t A32_fetch_add(uint32_t* p, uint32_t d, int mo) { env(); uint32_t o = M._readers_wait; M._readers_wait = o + d; on_rw_write(o, o + d, mo, RG_ADD); INV_ASSERT("after fetch_add(readers_wait)"); return o; }
+static uint32_t A32_fetch_sub(uint32_t* p, uint32_t d, int mo) { env(); uint32_t o = M._readers_wait; M._readers_wait = o - d; on_rw_write(o, o - d, mo, RG_SUB); INV_ASSERT("after fetch_sub(readers_wait)"); return o; }
+static void A32_store(uint32_t* p, uint32_t d, int mo) { env(); uint32_t o = M._readers_wait; M._readers_wait = d; on_rw_write(o, d, mo, RG_STORE); INV_ASSERT("after store(readers_wait)"); }
 /* abstract readers container */
 static void READERS_PUSH(Node* n) { __CPROVER_assert(me.lock, "readers list only under the spinlock"); g.rl++; }
 static int READERS_EMPTY(void) { __CPROVER_assert(me.lock, "readers list only under the spinlock"); return g.rl == 0; }
@@ -280,7 +294,7 @@ def jobs(ctx):
     repo = ctx.repo
     props = ['C15']
     out = []
-    src_text = read_source(repo, F)
+    src_text = read_source(repo, F)[1]
     if not re.search(r'kReader\s*=\s*std::uint64_t\{1\}\s*;', src_text) or not re.search(r'kWriter\s*=\s*kReader\s*<<\s*std::uint64_t\{32\}\s*;', src_text):
         raise ExtractionBreak('SharedMutexImpl: kReader / kWriter are no longer 1 and 1 << 32')
     WITHIN = r'struct\s+SharedMutexImpl\s*\{'
@@ -322,7 +336,7 @@ def jobs(ctx):
                        loop_contracts=loops, expect=list(expect), meta={'fn': name, 'fifo': fifo}, timeout=900))
 
     START = 'POOL_INIT(); env(); __CPROVER_assume(INV_A); g_runs = 0; g_must_run = 0; g_run_kind = 0;'
-    NOTOK = 'me.hr == 0 && me.fl == 0 && me.ul == 0 && me.hw == 0 && me.mid == 0 && me.smid == 0 && me.lock == 0 && me.parked_first == 0 && me.parked_queue == 0 && me.queued_reader == 0'
+    NOTOK = 'me.enqueued == 0 && me.hr == 0 && me.fl == 0 && me.ul == 0 && me.hw == 0 && me.mid == 0 && me.smid == 0 && me.lock == 0 && me.parked_first == 0 && me.parked_queue == 0 && me.queued_reader == 0'
     FRAME = '__CPROVER_assigns(M, g, me, g_runs, g_must_run, g_run_kind)'
     for fifo in (0, 1):
         # ---- TryLockSharedAwait ------------------------------------------------------------------------------------------------------------
@@ -388,8 +402,8 @@ __CPROVER_requires(INV_A && ''' + NOTOK + ''' && me.node == curr)
    Returns false <=> it holds now (and is then the only holder); true <=> parked as first writer (debt >= 1: somebody will pay the last unit) or in the queue (behind a holder / first writer) */
 __CPROVER_ensures(INV_A && me.lock == 0 && me.mid == 0 && (RET ? (me.hw == 0 && me.parked_first + me.parked_queue == 1) : (me.hw == 1 && g.hw == 1 && g.hr == 0 && me.parked_first + me.parked_queue == 0)))
 __CPROVER_ensures(me.parked_queue ==> g.wq >= 1)
-{ curr = &wp[g.qt]; me.node = curr; ''' + conv('AwaitLock', lock_raii=True) + '''}
-void harness(void) { ''' + START + ''' Node* c; me.node = c; int r = AwaitLock(c); if (!r) VF_CANARY("acquired"); else if (me.parked_first) VF_CANARY("first writer parked"); else VF_CANARY("queued"); }
+{''' + conv('AwaitLock', lock_raii=True) + '''}
+void harness(void) { ''' + START + ''' me.idx = nondet_ulong(); __CPROVER_assume(me.idx < WP_MAX - 1); Node* c = &wp[me.idx]; me.node = c; int r = AwaitLock(c); if (!r) VF_CANARY("acquired"); else if (me.parked_first) VF_CANARY("first writer parked"); else VF_CANARY("queued"); }
 '''
         add('AwaitLock', fifo, ['AwaitLock'], src, 'AwaitLock', canaries=3)
         # ---- UnlockHereShared --------------------------------------------------------------------------------------------------------------------------
@@ -454,7 +468,7 @@ void harness(void) { uint64_t s; me.lock = 1; PassReaders(s); VF_CANARY("end"); 
 '''
         src = head(fifo, role(commit='g.dec = DEC_NONE;')) + RUNW + '''void RunWriter(void)
 /* state right after the linearisation point of SlowUnlock with decision "next writer": logical counters already updated, concrete queue / priority not yet */
-__CPROVER_requires(me.lock && g.dec == DEC_WRITER && INV_A && g.hw == 1 && g_runs == 0)
+__CPROVER_requires(me.lock && g.dec == DEC_WRITER && INV_A && g.hw == 1 && g_runs == 0 && g.mid == 0 && g.fpend == 0 && g.smid == 0)
 __CPROVER_requires(M._readers_size == g.rs && M._readers_pass == g.pass && g.rl == g.rs && g.local == 0 && M._writers_prio == g.prio + (FIFO ? 1 : 0) && g.qh < g.qt && g.qt < WP_MAX && g.qt - g.qh == g.wq + 1
    && M._writers_tail == &wp[g.qt - 1] && g_must_run == &wp[g.qh])
 __CPROVER_assigns(M, g, me, g_runs)
@@ -467,7 +481,7 @@ void harness(void) { ''' + START + ''' __CPROVER_assume(g.hw == 1); me.lock = 1;
         # ---- RunReaders --------------------------------------------------------------------------------------------------------------------------------------------------
         r_ = role(rw='__CPROVER_assert(kind == RG_STORE, "C15: readers_wait is set for the next first writer"); tr_writer_release_store(n);', commit='g.dec = DEC_NONE; g.fpend = 0;')
         c = conv('RunReaders')
-        inv = '__CPROVER_assigns(g.local, g.latent, g_runs)\n__CPROVER_loop_invariant(g.local >= 1 && g.local + g_runs == g_n0 && g.latent == g_lat0 + g.local && me.lock == 0)'
+        inv = '__CPROVER_assigns(g.local, g.latent, g_runs)\n__CPROVER_loop_invariant(g.local >= 1 && g.local <= g_n0 && g_runs <= g_n0 && g.local + g_runs == g_n0 && g.latent == g_lat0 + g.local && me.lock == 0)'
         c = attach_loop_contracts('RunReaders', c, [inv])
         src = head(fifo, r_) + '''uint32_t g_n0, g_lat0;
 Node* READERS_POP(void);
@@ -479,7 +493,7 @@ Node* READERS_POP(void) { __CPROVER_assert(g.local >= 1, "readers list: PopFront
 void PassReaders(uint64_t s) __CPROVER_requires(me.lock && g.dec == DEC_READERS && (uint32_t)(s >> 32) == 1) __CPROVER_assigns(M._readers_pass) __CPROVER_ensures(M._readers_pass == OLD(M._readers_pass) + ((uint32_t)s - M._readers_size));
 void RunReaders(uint64_t s)
 /* state right after the linearisation point of SlowUnlock with decision "readers": `s` is the word the release saw */
-__CPROVER_requires(me.lock && (g.dec == DEC_READERS || g.dec == DEC_READERS_W) && INV_A && g.hw == 0 && (uint32_t)(s >> 32) == g.w_at_unlock && g_runs == 0 && g.latent < BND)
+__CPROVER_requires(me.lock && (g.dec == DEC_READERS || g.dec == DEC_READERS_W) && INV_A && g.hw == 0 && (uint32_t)(s >> 32) == g.w_at_unlock && g_runs == 0 && g.latent < BND && g_lat0 < BND && g_n0 < BND && g.mid == 0 && g.fpend == 0 && g.smid == me.smid)
 __CPROVER_requires(g.dec == DEC_READERS_W ? (me.smid && g.smid && g.w_at_unlock == g.wq + 1 && g.w_at_unlock != 1 && M._readers_size == g.rs && M._readers_pass == g.pass && g.rl == g.rs && g_n0 == g.rs && g_lat0 == g.latent && M._writers_prio == g.prio)
                                   : (g.w_at_unlock == 1 && !me.smid && M._readers_size == g_n0 && g.rl == g_n0 && g_n0 >= 1 && g.rs == 0 && g.latent == g_lat0 + g_n0 && g.latent <= g.hr && (uint32_t)s >= g_n0 && (uint32_t)s < BND
                                      && g.pass == M._readers_pass + ((uint32_t)s - g_n0) && M._writers_prio == g.prio))
